@@ -13,8 +13,11 @@
    EncryptedAssertion with an EncryptedData is left.  _assertion / decrypt_assertions answer what Model.run_chk says
    (theorem c01_source2_assertion ties _assertion itself; C16 ties decrypt_assertions).
 
+   The walk ends with the repaired number rule of /repo fix 6a3bb24f (more than one processed assertion in a Response
+   without signature -> InvalidAssertion): Model.KNumber.
+
    Proof: ONE evaluation over all lists of at most 3 assertions (each: 5 findings x issuer comparison x plain /
-   encrypted = 20; 8421 lists) x the requirement flag, with the fuel `bound + n` for a FREE n: the loops end within
+   encrypted = 20; 8421 lists) x the requirement flag x Response signed or not, with the fuel `bound + n` for a FREE n: the loops end within
    the bound, so the stuck `pywhile2 n` never shows and the result holds for every fuel above the bound. *)
 Set Default Timeout 20.
 From Coq Require Import String Ascii List Bool ZArith Arith Lia.
@@ -35,20 +38,24 @@ Definition i_enc (x : item) : bool := snd x.
 Definition items_of (only_md : bool) (mm : mmsg) : list item :=
   map (fun x => (x_find only_md mm x, x_im mm x, x_enc x)) (mm_asl mm).
 
-Definition sched_of (l : list item) : list chk :=
+(* rsigned: the Response element carries a ds:Signature (fix 6a3bb24f: the last check of the walk) *)
+Definition sched_of (rsigned : bool) (l : list item) : list chk :=
   map (fun x => KPlain (i_s x) (i_im x)) (filter (fun x => negb (i_enc x)) l)
   ++ map (fun x => KDecrypted (i_s x)) (filter i_enc l)
-  ++ map (fun x => KRest (i_s x) (i_im x)) (filter i_enc l).
+  ++ map (fun x => KRest (i_s x) (i_im x)) (filter i_enc l)
+  ++ [KNumber (Nat.ltb 1 (length l) && negb rsigned)].
+Definition r_signed (mm : mmsg) : bool := match mm_rs mm with Some _ => true | None => false end.
 Definition count_items (l : list item) : bool :=
   Nat.eqb (length (filter (fun x => negb (i_enc x)) l)) 1 || Nat.eqb (length (filter i_enc l)) 1.
 
 Lemma filter_map_comm {A B} (f : A -> B) (p : B -> bool) l : filter p (map f l) = map f (filter (fun x => p (f x)) l).
 Proof. induction l as [|x l IH]; [reflexivity|]. cbn. destruct (p (f x)); cbn; rewrite IH; reflexivity. Qed.
 
-Lemma sched_of_items only mm : sched_of (items_of only mm) = schedule only mm.
+Lemma sched_of_items only mm : sched_of (r_signed mm) (items_of only mm) = schedule only mm.
 Proof.
-  unfold sched_of, items_of, schedule, plain_of, enc_of, is_plain.
-  rewrite !filter_map_comm, !map_map. reflexivity.
+  unfold sched_of, items_of, schedule, schedule_v0, several_unsigned, r_signed, plain_of, enc_of, is_plain.
+  rewrite !filter_map_comm, !map_map, map_length, <- !app_assoc.
+  destruct (mm_rs mm); reflexivity.
 Qed.
 
 Lemma count_items_of only mm : count_items (items_of only mm) = count_ok (mm_asl mm).
@@ -67,6 +74,7 @@ Definition chk_exc (q : bool) (k : chk) : option string :=
                   | SAbsent => if q then Some "SignatureError" else if im then None else Some "VerificationError"
                   | _ => if im then None else Some "VerificationError"
                   end
+  | KNumber bad => if bad then Some "InvalidAssertion" else None
   end.
 Fixpoint first_exc (l : list (option string)) : option string :=
   match l with [] => None | None :: l' => first_exc l' | Some n :: _ => Some n end.
@@ -81,7 +89,7 @@ Definition outcome_of_name (n : option string) : outcome :=
   end.
 
 Lemma chk_exc_outcome q k : outcome_of_name (chk_exc q k) = run_chk q k.
-Proof. destruct k as [s im|s|s im]; destruct q, s; try destruct im; reflexivity. Qed.
+Proof. destruct k as [s im|s|s im|b]; [destruct q, s, im | destruct s | destruct q, s, im | destruct b]; reflexivity. Qed.
 
 Lemma first_exc_outcome q sch : outcome_of_name (first_exc (map (chk_exc q) sch)) = first_err (map (run_chk q) sch).
 Proof.
@@ -120,14 +128,18 @@ Fixpoint mk_encs (j : nat) (es : list pyval) : list pyval :=
       end
   end.
 
-(* the TEXT of the document: how many EncryptedData have been opened, the plain assertions, the encrypted ones *)
-Definition mk_text (j : nat) (ps es : list pyval) : pyval := PList [PInt (Z.of_nat j); PList ps; PList es].
+(* the TEXT of the document: how many EncryptedData have been opened, the plain assertions, the encrypted ones, whether the
+   Response element carries a ds:Signature *)
+Definition mk_text (rsigned : bool) (j : nat) (ps es : list pyval) : pyval :=
+  PList [PInt (Z.of_nat j); PList ps; PList es; PBool rsigned].
 
 (* samlp.response_from_string *)
 Definition ext_response_from_string : pyval -> pyval := fun t =>
   match t with
-  | PList [PInt j; PList ps; PList es] =>
-      PObj [("__class__", PStr "Response"); ("text", t); ("assertion", PList (map asn_of_code ps));
+  | PList [PInt j; PList ps; PList es; PBool rsigned] =>
+      PObj [("__class__", PStr "Response"); ("text", t);
+            ("signature", if rsigned then PObj [("__class__", PStr "Signature")] else PNone);
+            ("assertion", PList (map asn_of_code ps));
             ("encrypted_assertion", PList (mk_encs (Z.to_nat j) es))]
   | _ => PErr
   end.
@@ -137,8 +149,8 @@ Definition ext_str : pyval -> pyval := fun r => p2_attr r "text".
 (* self.sec.decrypt_keys: xmlsec1 --decrypt opens ONE EncryptedData, the first in document order; none left: DecryptError *)
 Definition ext_decrypt_keys : pyval -> pyval -> pyval -> pyval := fun _ t _ =>
   match t with
-  | PList [PInt j; PList ps; PList es] =>
-      if (Z.to_nat j <? length es)%nat then PList [PInt (j + 1)%Z; PList ps; PList es] else PExc "DecryptError"
+  | PList [PInt j; PList ps; PList es; sg] =>
+      if (Z.to_nat j <? length es)%nat then PList [PInt (j + 1)%Z; PList ps; PList es; sg] else PExc "DecryptError"
   | _ => PErr
   end.
 
@@ -187,14 +199,14 @@ Definition plain_codes (l : list item) := codes (filter (fun x => negb (i_enc x)
 Definition enc_codes (l : list item) := codes (filter i_enc l).
 
 (* the AuthnResponse object when verify() calls parse_assertion for the first time *)
-Definition pa_self (q : bool) (l : list item) : pyval :=
+Definition pa_self (q rsigned : bool) (l : list item) : pyval :=
   PObj [("__class__", PStr "AuthnResponse"); ("context", PStr "AuthnReq"); ("require_signature", PBool q);
-        ("response", ext_response_from_string (mk_text 0 (plain_codes l) (enc_codes l)));
+        ("response", ext_response_from_string (mk_text rsigned 0 (plain_codes l) (enc_codes l)));
         ("assertion", PNone); ("assertions", PList []); ("xmlstr", PStr "<as received/>"); ("ava", PNone)].
 
-Definition pa_run (fuel : nat) (q : bool) (l : list item) : pyval :=
+Definition pa_run (fuel : nat) (q rsigned : bool) (l : list item) : pyval :=
   src2_parse_assertion fuel ext_assertion ext_find_encrypt_data ext_find_list ext_decrypt_keys ext_response_from_string
-                       ext_decrypt_assertions ext_get_identity ext_str (pa_self q l) PNone.
+                       ext_decrypt_assertions ext_get_identity ext_str (pa_self q rsigned l) PNone.
 
 (* what the property can see of the outcome: the exception, or True together with the assertions that were taken
    (self.assertions, self.assertion), what is left in self.response and the text kept in self.xmlstr *)
@@ -206,8 +218,8 @@ Definition pa_view (v : pyval) : pyval :=
   | _ => PErr
   end.
 
-Definition pa_expected (q : bool) (l : list item) : pyval :=
-  match verify_all_exc q (count_items l) (sched_of l) with
+Definition pa_expected (q rsigned : bool) (l : list item) : pyval :=
+  match verify_all_exc q (count_items l) (sched_of rsigned l) with
   | Some n => PExc n
   | None =>
       let ps := map asn_of_code (plain_codes l) in
@@ -217,7 +229,7 @@ Definition pa_expected (q : bool) (l : list item) : pyval :=
              PList [];
              match es with
              | [] => PStr "<as received/>"
-             | _ => mk_text (length es) (plain_codes l) (enc_codes l)
+             | _ => mk_text rsigned (length es) (plain_codes l) (enc_codes l)
              end]
   end.
 
@@ -234,22 +246,22 @@ Fixpoint small_exact (n : nat) : list (list item) :=
   match n with O => [[]] | S n' => flat_map (fun x => map (cons x) (small_exact n')) small_items end.
 Definition small_upto (n : nat) : list (list item) := flat_map small_exact (seq 0 (S n)).
 
-Definition pa_ok (n : nat) (q : bool) (l : list item) : bool :=
-  pyval_eqb (pa_view (pa_run (S (length (filter i_enc l)) + n) q l)) (pa_expected q l).
+Definition pa_ok (n : nat) (q rsigned : bool) (l : list item) : bool :=
+  pyval_eqb (pa_view (pa_run (S (length (filter i_enc l)) + n) q rsigned l)) (pa_expected q rsigned l).
 
 (* fuel = (number of EncryptedData + 1) + n for a FREE n: every loop ends within the bound, the stuck `pywhile2 n` never
    shows in the normal form *)
-Lemma pa_table_full n : forallb (fun q => forallb (pa_ok n q) (lists_upto 3)) all_bool = true.
+Lemma pa_table_full n : forallb (fun q => forallb (fun g => forallb (pa_ok n q g) (lists_upto 3)) all_bool) all_bool = true.
 Proof. vm_compute. reflexivity. Qed.
 
-Lemma pa_table_small n : forallb (fun q => forallb (pa_ok n q) (small_upto 5)) all_bool = true.
+Lemma pa_table_small n : forallb (fun q => forallb (fun g => forallb (pa_ok n q g) (small_upto 5)) all_bool) all_bool = true.
 Proof. vm_compute. reflexivity. Qed.
 
 (* one EncryptedData too few in the fuel: the translated function answers PErr (never a normal-looking value) *)
 Example out_of_fuel :
-  pa_run 2 true [((SOk, true), false); ((SOk, true), true); ((SOk, true), true)] = PErr
-  /\ pa_view (pa_run 3 true [((SOk, true), false); ((SOk, true), true); ((SOk, true), true)])
-     = pa_expected true [((SOk, true), false); ((SOk, true), true); ((SOk, true), true)].
+  pa_run 2 true true [((SOk, true), false); ((SOk, true), true); ((SOk, true), true)] = PErr
+  /\ pa_view (pa_run 3 true true [((SOk, true), false); ((SOk, true), true); ((SOk, true), true)])
+     = pa_expected true true [((SOk, true), false); ((SOk, true), true); ((SOk, true), true)].
 Proof. split; vm_compute; reflexivity. Qed.
 
 Lemma in_all_items (x : item) : In x all_items.
@@ -287,30 +299,32 @@ Qed.
    EncryptedData per call, with any fuel above the number of EncryptedData, ends as the walk of the model says *)
 Definition in_domain (l : list item) : Prop := (length l <= 3)%nat \/ (Forall small l /\ (length l <= 5)%nat).
 
-Theorem src2_parse_assertion_is_model : forall (q : bool) (l : list item) (fuel : nat),
+Theorem src2_parse_assertion_is_model : forall (q rsigned : bool) (l : list item) (fuel : nat),
   in_domain l -> (length (filter i_enc l) < fuel)%nat ->
-  pa_view (pa_run fuel q l) = pa_expected q l.
+  pa_view (pa_run fuel q rsigned l) = pa_expected q rsigned l.
 Proof.
-  intros q l fuel Hd Hf.
+  intros q g l fuel Hd Hf.
   replace fuel with (S (length (filter i_enc l)) + (fuel - S (length (filter i_enc l))))%nat by lia.
   set (n := (fuel - S (length (filter i_enc l)))%nat). clearbody n.
-  apply pyval_eqb_eq. change (pa_ok n q l = true).
+  apply pyval_eqb_eq. change (pa_ok n q g l = true).
   destruct Hd as [H3|[Hs H5]].
   - pose proof (pa_table_full n) as T. rewrite forallb_forall in T. specialize (T q (in_all_bool q)).
+    rewrite forallb_forall in T. specialize (T g (in_all_bool g)).
     rewrite forallb_forall in T. apply T, in_lists_upto, H3.
   - pose proof (pa_table_small n) as T. rewrite forallb_forall in T. specialize (T q (in_all_bool q)).
+    rewrite forallb_forall in T. specialize (T g (in_all_bool g)).
     rewrite forallb_forall in T. apply T, in_small_upto; assumption.
 Qed.
 
 (* ... and so classed by the handlers of _parse_response as Model.verify_all of that Response *)
 Definition exc_of (v : pyval) : option string := match v with PExc n => Some n | _ => None end.
 
-Lemma exc_of_expected q l : exc_of (pa_expected q l) = verify_all_exc q (count_items l) (sched_of l).
-Proof. unfold pa_expected. destruct (verify_all_exc q (count_items l) (sched_of l)); reflexivity. Qed.
+Lemma exc_of_expected q g l : exc_of (pa_expected q g l) = verify_all_exc q (count_items l) (sched_of g l).
+Proof. unfold pa_expected. destruct (verify_all_exc q (count_items l) (sched_of g l)); reflexivity. Qed.
 
 Theorem src2_parse_assertion_verify_all : forall (only_md q : bool) (mm : mmsg) (fuel : nat),
   (length (mm_asl mm) <= 3)%nat -> (length (enc_of (mm_asl mm)) < fuel)%nat ->
-  outcome_of_name (exc_of (pa_view (pa_run fuel q (items_of only_md mm))))
+  outcome_of_name (exc_of (pa_view (pa_run fuel q (r_signed mm) (items_of only_md mm))))
   = verify_all q (count_ok (mm_asl mm)) (schedule only_md mm).
 Proof.
   intros only q mm fuel H3 Hf.
@@ -323,6 +337,6 @@ Qed.
 (* the externals are what the model's sub-functions say: _assertion = run_chk (KPlain / KRest), and on one assertion
    that is the verify_exc of c01_source2_assertion *)
 Lemma ext_assertion_plain q s im :
-  ext_assertion (pa_self q []) (mk_asn (code_of s im)) (PBool false)
+  ext_assertion (pa_self q false []) (mk_asn (code_of s im)) (PBool false)
   = match verify_exc q s im with Some n => PExc n | None => PBool true end.
 Proof. destruct q, s, im; reflexivity. Qed.
